@@ -147,6 +147,13 @@ OPS = {
     'make_2_align': lambda: segno.make('Version two has an alignment', version=2),
     'make_7_version': lambda: segno.make('seven', version=7, error='M', mask=3),
     'make_8_version': lambda: segno.make('eight', version=8, error='Q', mask=5),
+    # the same payload requested in different ways (state keyed by the payload only would mix them up)
+    'same_digits_auto': lambda: segno.make('2024', micro=False),
+    'same_digits_byte': lambda: segno.make('2024', micro=False, mode='byte'),
+    'same_digits_alnum_q': lambda: segno.make('2024', micro=False, mode='alphanumeric', error='Q', boost_error=False),
+    'same_kanji_auto': lambda: segno.make(KANJI, micro=False),
+    'same_kanji_byte_utf8': lambda: segno.make(KANJI, micro=False, mode='byte', encoding='utf-8'),
+    'same_kanji_eci': lambda: segno.make(KANJI, micro=False, mode='byte', encoding='utf-8', eci=True, version=3, mask=1),
     'make_parts': lambda: segno.make(PARTS),
     'make_eci': lambda: segno.make('\xe4\xf6\xfc', encoding='utf-8', eci=True),
     'make_hanzi': lambda: segno.make('书读', mode='hanzi'),
